@@ -2,7 +2,7 @@
 import worldlib as W
 from check_world import run_world
 
-OBLIGATIONS = ['Cvise.C04.backup_preserves', 'Cvise.C04.backup_creates', 'Cvise.C04.modes_back_when_pass_completes',
+OBLIGATIONS = ['Cvise.C04.only_test_cases_touched', 'Cvise.C04.original_survives', 'Cvise.C04.frame_for_every_run', 'Cvise.C04.backup_preserves', 'Cvise.C04.backup_creates', 'Cvise.C04.modes_back_when_pass_completes',
                'Cvise.C04.modes_lost_without_restore', 'Cvise.C04.shipped_backup_guard']
 
 
@@ -13,14 +13,82 @@ def probe(ctx, diffs=None):
     check_C11.raising_helper_probe(ctx)
 
 
+def world_scens(ctx, n):
+    """whole reductions under the scheduler shim in a working directory that also holds unrelated files, a sub-directory and,
+    sometimes, backups that already exist; tidy on and off"""
+    import drvlib as D
+    out = []
+    for _ in range(n):
+        s = D.gen_scenario(ctx.rng, {'p_contract': 0.4, 'p_faults': 0.2, 'files': [1, 2, 3], 'p_small_consts': 0.3, 'p_empty': 0.0})
+        nc = len(s['texts'])
+        files = {'other.txt': ctx.rng.randrange(nc), 'sub/notes.md': ctx.rng.randrange(nc), 'a.c.bak': ctx.rng.randrange(nc)}
+        for f in s['files']:
+            if ctx.rng.random() < 0.35:
+                files[f + '.orig'] = ctx.rng.randrange(nc)        # a backup that already exists: must stay as it is
+        s['world'] = {'files': files}
+        s['cfg']['tidy'] = ctx.rng.random() < 0.3
+        s['cfg']['die'] = False
+        out.append(s)
+    return out
+
+
+def world_oracle(scen, obs):
+    """judged on the listing of the working directory, without the model"""
+    if 'fs' not in obs:
+        return None
+    after = dict(obs['fs'])
+    before = dict(zip(scen['files'], scen['disk']))
+    before.update(scen['world']['files'])
+    tcs = set(scen['files'])
+    for p_, c in before.items():
+        if p_ not in tcs and after.get(p_) != c:
+            return 'file-other-than-a-test-case-changed'
+    for p_ in after:
+        if p_ not in before and not (p_.endswith('.orig') and p_[:-5] in tcs):
+            return 'unexpected-file-in-the-working-directory'
+    if scen.get('mode', 'reduce') == 'reduce' and not scen['cfg'].get('tidy') and obs['outcome'] != 'InsaneTestCaseError':
+        for t, c in zip(scen['files'], scen['disk']):
+            want = scen['world']['files'].get(t + '.orig', c)
+            if after.get(t + '.orig') != want:
+                return 'orig-missing' if t + '.orig' not in after else ('existing-orig-overwritten' if t + '.orig' in scen['world']['files'] else 'orig-differs-from-the-original')
+    return None
+
+
+def shim_world_part(ctx, diffs):
+    import drvlib as D
+    probe(ctx, diffs)
+    rows = D.run_both(ctx, world_scens(ctx, 60 if ctx.tier == 'quick' else 800))
+    for scen, obs, real, model in rows:
+        ctx.count()
+        if real != model:
+            diffs.append({'kind': 'drv-world', 'scenario': scen, 'real': real, 'model': model})
+        sig = world_oracle(scen, obs)
+        if sig:
+            ctx.report(sig + ':shim', f'{sig}: {obs.get("fs")}'[:380], {'kind': 'drv-world', 'scenario': scen})
+        if any(e[0] == 'C' for e in obs['log']):
+            ctx.nontrivial(('world', D.scen_key(scen)))
+
+
 def run(ctx):
     if ctx.replay:
         import json
+        if json.load(open(ctx.replay)).get('kind') == 'drv-world':
+            import drvlib as D
+            import harness_drv as H
+            import tempfile
+            from pathlib import Path
+            scen = json.load(open(ctx.replay))['scenario']
+            obs = H.run_real(scen, Path(tempfile.mkdtemp(prefix='drv-', dir=ctx.scratch)), rng=ctx.rng)
+            sig = world_oracle(scen, obs)
+            print('observed fs:', obs.get('fs'), '->', sig or 'holds')
+            if sig:
+                ctx.report(sig + ':shim', sig, {'kind': 'drv-world', 'scenario': scen})
+            return 1 if ctx.violations else 0
         if json.load(open(ctx.replay)).get('kind') == 'raising-helper':
             probe(ctx)
             print('replayed ->', 'fails' if ctx.violations else 'holds')
             return 1 if ctx.violations else 0
-    return run_world(ctx, 'C04', OBLIGATIONS, W.oracle_C04, shim_part=probe,
+    return run_world(ctx, 'C04', OBLIGATIONS, W.oracle_C04, shim_part=shim_world_part,
                      rule='recursive snapshot (path, sha1, mode) of a working directory with sub-directories, odd modes, a pre-existing .orig and unrelated files, before and after CVise.reduce / run_pass '
                           'for success, error and no-progress exits, tidy on/off: only test cases may change, X.orig = original bytes, existing .orig untouched, modes restored, cwd unchanged. '
                           'non-trivial = run with commits')
